@@ -94,7 +94,13 @@ func writeManPageOptions(wr io.Writer, grp *Group) {
 				}
 			}
 
-			if len(opt.Default) != 0 {
+			if len(opt.DefaultMask) != 0 {
+				// A masked default is shown as its mask (or not at all), never
+				// as its real value: same rule as in the help text
+				if opt.DefaultMask != "-" {
+					fmt.Fprintf(wr, " <default: \\fI%s\\fR>", manQuote(opt.DefaultMask))
+				}
+			} else if len(opt.Default) != 0 {
 				fmt.Fprintf(wr, " <default: \\fI%s\\fR>", manQuote(strings.Join(quoteV(opt.Default), ", ")))
 			} else if len(opt.EnvKeyWithNamespace()) != 0 {
 				if runtime.GOOS == "windows" {
